@@ -85,8 +85,15 @@ def gate(itp, wd):
     return gate_top([itp], [("t", 1)], wd)
 
 
-def _bonds_only(links):
-    return all(x["kind"] == "bonds" for l in links for x in l["inters"])
+def _bonds_only(links, xlinks=()):
+    return all(x["kind"] == "bonds" for l in links for x in l["inters"]) and all(x["kind"] == "bonds" for x in xlinks)
+
+
+class _HeaderX(c02._Header):
+    """family X (module MC_LinksX) prints its force fields under the tag FFSX"""
+
+    def tagged(self, tag):
+        return self.res.tagged("FFSX" if tag == "FFS" else tag)
 
 
 def _coord_text(co):
@@ -244,15 +251,20 @@ def _chunk(arg):
         inp, exp = case["input"], case["expected"]
         ff = ffs[inp["ff"] - 1]
         syntax = "itp" if fam == "E" else "multi" if "multi" in ff else ("ff", "mixed")[idx % 2]
-        paths = lu.write_ff(wd, ff["blocks"], ff["links"], syntax, ff["multi"] if "multi" in ff else idx % 2)
+        # links given by atom number (family X): a file of their own, read before or after the file with the other links
+        xlinks = inp.get("xlinks") or []
+        paths = lu.write_ff(wd, ff["blocks"], ff["links"], syntax, ff["multi"] if "multi" in ff else idx % 2, xlinks=xlinks, xfirst=(idx // 2) % 2 == 1)
         if mode == "processors":
             obs = lu.run_processors(inp, ff["blocks"], ff["links"], paths)
             diffs, known = check_missing(inp, exp, obs, ff["links"], False)
+            if fam == "X" and not diffs:
+                # the whole molecule: which atoms a number names, the interactions and edges the numbered links add, the attempts
+                diffs = lu.compare(exp, obs, ff["blocks"], inp, with_calls=True, with_missing=False)
         else:
             obs = lu.run_gen_params(inp, ff["blocks"], ff["links"], paths, wd)
             diffs, known = check_missing(inp, exp, obs, ff["links"], True, ff["blocks"])
             # a reader of a topology joins atoms by bonds (constraints, virtual sites): the gate is asserted where links make bonds only
-            bonds_only = _bonds_only(ff["links"])
+            bonds_only = _bonds_only(ff["links"], xlinks)
             if not diffs and "exception" not in obs and _edges_are_written(ff["links"]) and bonds_only:
                 g = gate(obs["itp"], wd)
                 ngate += 1
@@ -267,10 +279,16 @@ def _chunk(arg):
 
 
 def replay_family(ck, fam, res, tier, rng, n_proc, n_gp):
-    ffs = lu.parse_export(c02._Header(res))[0]
+    ffs = lu.parse_export(_HeaderX(res) if fam == "X" else c02._Header(res))[0]
     raws = c02._raw_cases(res)
     if not raws:
         raise c.MachineryError("family %s: TLC exported no case" % fam)
+    if fam == "X":
+        # what the family is there for must be in it: residue edges whose only atom-level connection is a link given by atom number
+        only = sum(1 for r in raws if '\\"onlyexplicit\\":true' in r)
+        if not only or only == len(raws):
+            raise c.MachineryError("family X: %d of %d cases have a residue edge realised only by a link given by atom number" % (only, len(raws)))
+        ck.extra["family_X_cases_with_an_edge_realised_only_by_a_numbered_link"] = only
     ck.extra.setdefault("exported_cases", {})[fam] = len(raws)
     idxs = list(range(len(raws)))
     pick_p = idxs if n_proc is None or len(idxs) <= n_proc else sorted(rng.sample(idxs, n_proc))
@@ -292,7 +310,7 @@ def replay_family(ck, fam, res, tier, rng, n_proc, n_gp):
     ck.extra["gen_params_runs"] = ck.extra.get("gen_params_runs", 0) + len(pick_g)
     for i, case in dec.items():
         e = case["expected"]
-        if e["missing"] and len(e["missing"]) < len(case["input"]["edges"]):
+        if (e["missing"] and len(e["missing"]) < len(case["input"]["edges"])) or case.get("onlyexplicit"):
             ck.nontrivial.add("%s:%d" % (fam, i))
     if fam == "M":
         mixed = [d for d in dec.values() if d["expected"]["missing"] and len(d["expected"]["missing"]) < len(d["input"]["edges"])]
@@ -310,8 +328,8 @@ def _record_chunk(arg):
     wd = c.workdir(PROP, "record_%s" % wdname)
     out = []
     for sd in seeds:
-        inp = lu.random_case(random.Random(sd))
-        paths = lu.write_ff(wd, inp["blocks"], inp["links"], "ff", sd % 2, tag="r")
+        inp = lu.random_case(random.Random(sd), explicit=True)       # 45 % of the cases carry links given by atom number
+        paths = lu.write_ff(wd, inp["blocks"], inp["links"], "ff", sd % 2, tag="r", xlinks=inp.get("xlinks"), xfirst=sd % 3 == 0)
         obs = lu.run_gen_params(inp, inp["blocks"], inp["links"], paths, wd)
         if "exception" in obs:
             o = {"exception": obs["exception"], "ints": [], "edges": [], "removed": [], "calls": [], "attr": [], "missing": []}
@@ -329,6 +347,8 @@ def run(tier):
     ck.rule = ("S->I: family M = 10 force fields (no link, chain links that leave pairs with B unlinked, star links, an [ edges ]-only link, a bond that "
                "makes no edge, atom removal after linking, removal of the linking atom) x all connected residue graphs on 1-4 residues x names {A,B}^n, "
                "family N = 5 of them x graphs on <= 3 residues (all-A graphs with <= 4 edges on 4) x every non-identity assignment of residue ids to node keys, "
+               "family X = 4 force fields x graphs on <= 3 residues (trees on 4) x assignments of residue ids x 6-7 sets of links given by atom number "
+               "([ molmeta ] by_atom_id true: a bond for every / one residue edge, an angle, a bond between residues that are not neighbours, two kinds, inside the first residue), "
                "plus families B (link features) and E (dangling .itp); a case is non-trivial if some but not all residue edges are missing. "
                "I->S: seeded random cases with 5-7 residues through gen_params, warnings parsed; distinct = record with an applied link")
     ck.assumptions = ["the gate is asserted for disconnection at residue level only; atoms disconnected inside one residue are accepted by design",
@@ -341,6 +361,9 @@ def run(tier):
     jobs = [("export_M", "MC_Links", "Lk_export_M.cfg", 4, {}), ("export_B", "MC_Links", "Lk_export_B.cfg", 3, {}), ("export_E", "MC_Links", "Lk_export_E.cfg", 2, {}),
             ("export_N", "MC_Links", "Lk_export_N.cfg", 3, {}), ("modelN", "MC_Links", "Lk_small_N.cfg", 2, {}),
             ("export_I", "MC_Links", "Lk_export_I.cfg", 1, {}), ("modelI", "MC_Links", "Lk_small_I.cfg", 1, {}),
+            ("export_X", "MC_LinksX", "Lk_export_X.cfg" if tier == "quick" else "Lk_export_Xfull.cfg", 3, {}),
+            ("modelX", "MC_LinksX", "Lk_small_X.cfg" if tier == "quick" else "Lk_small_Xfull.cfg", 3, {"coverage": True}),
+            ("dev_MissingBeforeExplicit", "MC_LinksX", "Lk_dev_MissingBeforeExplicit.cfg", 1, {"check": False}),
             ("dev_SkipSameItp", "MC_Links", "Lk_dev_SkipSameItp.cfg", 1, {"check": False}),
             ("dev_OrderedPairs", "MC_Links", "Lk_dev_OrderedPairs.cfg", 1, {"check": False}),
             ("gate", "MC_Links", "Lk_gate.cfg", 1, {}), ("dev_GateOnce", "MC_Links", "Lk_dev_GateOnce.cfg", 1, {"check": False}),
@@ -363,6 +386,10 @@ def run(tier):
     ck.model_must_refute(results["dev_OrderedPairs"], "MissingIsExpected", "independent seed C10-2: joined residue pairs compared as ordered pairs")
     ck.model_must_hold(results["gate"], "GateIsExpected: refuse whenever something is generated for a disconnected, not ignored molecule wherever it stands, pass connected ones (3,000 cases)")
     ck.model_must_hold(results["modelI"], "MissingIsExpected/BondXorMissing/FinalIsExpected with consecutive copies of a two-residue from_itp block")
+    ck.model_must_hold(results["modelX"], "FinalIsExpected/MissingIsExpected/BondXorMissing with links given by atom number, applied after all other links")
+    if not results["modelX"].coverage().get("ApplyExplicit"):
+        raise c.MachineryError("action ApplyExplicit never taken")
+    ck.model_must_refute(results["dev_MissingBeforeExplicit"], "BondXorMissing", "independent seed7-C10-2: the missing links are collected before the links given by atom number are applied")
     ck.model_must_refute(results["dev_SkipSameItp"], "MissingIsExpected", "independent seed5-C10-1: residue pairs with the same from_itp value are not examined")
     ck.model_must_refute(results["dev_GateStopsAtIgnored"], "GateIsExpected", "independent seed5-C10-2: the gate pass ends at the first ignored molecule")
     ck.model_must_refute(results["dev_GateBuildOnly"], "GateIsExpected", "independent seed3-C10-2: molecules without a residue to build are exempt")
@@ -371,7 +398,7 @@ def run(tier):
     ck.model_must_refute(results["dev_Degree"], "MissingIsExpected", "degree filter compares the wrong way (m12), after link application")
     ck.model_must_refute(results["dev_missing"], "MissingIsExpected", "degree filter compares the wrong way (m12), arbitrary edge sets")
     quick = tier == "quick"
-    for fam, n_proc, n_gp in (("M", 2500 if quick else None, 260 if quick else 3000), ("N", 1200 if quick else None, 200 if quick else 2000), ("I", None, None), ("B", 500 if quick else None, 80 if quick else 800),
+    for fam, n_proc, n_gp in (("M", 2500 if quick else None, 260 if quick else 3000), ("N", 1200 if quick else None, 200 if quick else 2000), ("I", None, None), ("X", 800 if quick else None, 220 if quick else 2500), ("B", 500 if quick else None, 80 if quick else 800),
                               ("E", 200 if quick else None, 60 if quick else 680)):
         ck.stage("replay family %s" % fam)
         res = results["export_" + fam]
